@@ -188,3 +188,44 @@ func H09dv_twin() {
 		vAssert(false, "H09dv_twin.reach: reachable")
 	}
 }
+
+// H09dh: the same validator over a history of documents in one process (whatever the validator keeps from earlier
+// documents must not change its verdict): a first document of the DID with one method (any fragment, any key) is
+// validated, then a second version with one method (any fragment, any key - possibly the same id with another
+// key): the second is accepted only if its method id is the thumbprint of ITS key.
+func H09dh() {
+	owner := vOwner()
+	mk := func(tag string) (did.Document, string) {
+		vTag(tag + "_fragment")
+		id := did.DIDURL{DID: owner, Fragment: vString(1)}
+		vTag(tag + "_key")
+		x := vString(1)
+		return did.Document{ID: owner, VerificationMethod: did.VerificationMethods{&did.VerificationMethod{ID: id, Type: "JsonWebKey2020", Controller: owner, PublicKeyJwk: map[string]interface{}{"x": x}}}}, x
+	}
+	doc1, _ := mk("first")
+	doc2, x2 := mk("second")
+	err1 := verificationMethodValidator{}.Validate(doc1)
+	if err1 == nil {
+		vCover("first-accepted")
+	}
+	err2 := verificationMethodValidator{}.Validate(doc2)
+	if err2 == nil {
+		vCover("second-accepted")
+		if doc2.VerificationMethod[0].ID.Fragment == doc1.VerificationMethod[0].ID.Fragment {
+			vCover("same-method-id")
+		}
+		vAssert(doc2.VerificationMethod[0].ID.Fragment == hThumbID(x2), "H09dh.key_id_is_thumbprint_every_time: a later document was accepted with a verificationMethod whose id is not the thumbprint of its key (after an earlier document used that id)")
+	} else {
+		vAssert(doc2.VerificationMethod[0].ID.Fragment != hThumbID(x2), "H09dh.valid_method_accepted: a verificationMethod whose id is the thumbprint of its key was refused")
+	}
+}
+
+func H09dh_twin() {
+	owner := did.DID{Method: "nuts", ID: "a"}
+	x := vString(1)
+	vm := &did.VerificationMethod{ID: did.DIDURL{DID: owner, Fragment: vString(1)}, PublicKeyJwk: map[string]interface{}{"x": x}}
+	d := did.Document{ID: owner, VerificationMethod: did.VerificationMethods{vm}}
+	if (verificationMethodValidator{}).Validate(d) == nil && (verificationMethodValidator{}).Validate(d) == nil {
+		vAssert(false, "H09dh_twin.reach: reachable")
+	}
+}
